@@ -461,6 +461,30 @@ func runC17(w *World, r *Report) {
 		for _, f := range sortedVars(written) {
 			r.Check(filled[f], "C17-R3", "(*ReplicateMeteImpl).Reload | fills "+f.Name(), rl.Pos(), "table rebuilt", "Reload never assigns into this table")
 		}
+		// R11: an unreadable store is reported, not taken for an empty one
+		r.Rule("C17-R11", "a failed store read makes Reload fail", "in Reload (and NewReplicateMetaImpl) no path from the branch on which the error of store.Get is non-nil reaches a return with a nil error without reading the store again (path-sensitive in the nil tests of that error)", 1)
+		nGet := 0
+		for _, b := range rl.Blocks {
+			v, nn, _, ok := errNilTest(b)
+			if !ok {
+				continue
+			}
+			org := errOrigin(familyOf(rl), v)
+			if org == nil || callSym(org.Common()).name != "Get" {
+				continue
+			}
+			nGet++
+			ret := failureReachesSuccess(rl, v, nn, org.Block())
+			pos := b.Instrs[len(b.Instrs)-1].Pos()
+			detail := ""
+			if ret != nil {
+				detail = "after store.Get failed Reload can still return nil (at " + w.Prog.Fset.Position(ret.Pos()).String() + "): memory stays empty while the store holds reports, and the next report overwrites the stored union with a single shard"
+			}
+			r.Check(ret == nil, "C17-R11", fmt.Sprintf("(*ReplicateMeteImpl).Reload | error of store.Get #%d", nGet), pos, "every path from the failure leaves with an error or reads again", detail)
+		}
+		if nGet == 0 {
+			r.Fail("C17-R11", "(*ReplicateMeteImpl).Reload | error of store.Get", rl.Pos(), "the error of store.Get is not tested in Reload")
+		}
 	}
 }
 
